@@ -13,15 +13,17 @@ def all_starts(pat, text):
     return [len(text[:m.start()].encode("utf-8")) for m in rx.finditer(text)]
 
 
-def spec_chain(text, gs, offs, starts, cursor, cmds):
+def spec_chain(text, gs, offs, starts, cursor, cmds, starts_of=None):
     """the property, literally: next/previous match start from the cursor, wrapping; counts = repetitions"""
     out = []
     last_fwd = True
+    main_starts = starts
     total = len(text.encode("utf-8"))
     for c in cmds:
         if c[0] == "search":
             fwd, count = c[1], c[2]
             last_fwd = fwd
+            starts = starts_of[c[3]] if (starts_of is not None and len(c) > 3) else main_starts
         elif c[0] == "next":
             fwd, count = last_fwd, c[1]
         else:
@@ -45,6 +47,8 @@ def spec_chain(text, gs, offs, starts, cursor, cmds):
 
 
 def keys_of(cmd, pat):
+    if cmd[0] == "search" and len(cmd) > 3:
+        pat = cmd[3]
     if cmd[0] == "search":
         cnt = "" if cmd[2] == 1 else str(cmd[2])
         return cnt + ("/" if cmd[1] else "?") + pat + "<CR>"
@@ -73,8 +77,11 @@ def run(tier, seed, replay=None):
                 cmds.append(["next", r.choice([1, 1, 2, 3])])
             elif k < 0.85:
                 cmds.append(["prev", r.choice([1, 1, 2, 3])])
-            else:
+            elif k < 0.93:
                 cmds.append(["search", r.random() < 0.5, r.choice([1, 2])])
+            else:
+                # another pattern (often one that matches nowhere): n/N must then follow *that* pattern
+                cmds.append(["search", r.random() < 0.5, 1, r.choice(["zzzz", "qqq", r.choice(PATTERNS)])])
         cases.append({"text": text, "pattern": pat, "start": start, "cmds": cmds, "via": r.choice(["m", "m", "c"])})
     if replay:
         rp = json.load(open(replay))
@@ -96,8 +103,10 @@ def run(tier, seed, replay=None):
         gs = graphemes_of(first["buf"], first["fresh"])
         starts = all_starts(c["pattern"], c["text"])
         cur0 = first["cur"]["value"]
-        pre[i] = (gs, first["fresh"], starts, cur0)
-        mreqs.append({"op": "search", "gs": gs, "starts": starts, "cursor": cur0, "cmds": c["cmds"]})
+        starts_of = {cmd[3]: all_starts(cmd[3], c["text"]) for cmd in c["cmds"] if cmd[0] == "search" and len(cmd) > 3}
+        pre[i] = (gs, first["fresh"], starts, cur0, starts_of)
+        mcmds = [(cmd[:3] + [starts_of[cmd[3]] if len(cmd) > 3 else starts]) if cmd[0] == "search" else cmd for cmd in c["cmds"]]
+        mreqs.append({"op": "search", "gs": gs, "starts": starts, "cursor": cur0, "cmds": mcmds})
         midx.append(i)
     mres = dict(zip(midx, batch(model_driver, mreqs)))
     for i, (c, x) in enumerate(zip(cases, resp)):
@@ -105,7 +114,7 @@ def run(tier, seed, replay=None):
             R.case(c, nontrivial=False, sample=False)
             R.count("crash_or_exit")
             continue
-        gs, offs, starts, cur0 = pre[i]
+        gs, offs, starts, cur0, starts_of = pre[i]
         R.case(c, nontrivial=(len(starts) >= 2))
         R.count("chain_len_%d" % len(c["cmds"]))
         R.count("via." + c["via"])
@@ -115,13 +124,13 @@ def run(tier, seed, replay=None):
         if any(t != c["text"] for t in texts):
             R.violation("a search edited the text", c)
             continue
-        want = spec_chain(c["text"], gs, offs, starts, cur0, c["cmds"])
+        want = spec_chain(c["text"], gs, offs, starts, cur0, c["cmds"], starts_of)
         if got != want:
             k = [j for j in range(len(want)) if got[j] != want[j]][0]
             R.violation("after %s the cursor is at %d, the %s match from there is at %d (cursors %s, expected %s)" % (
                 keys_of(c["cmds"][k], c["pattern"]), got[k], "next" if True else "", want[k], got, want), c)
             continue
-        if not starts and got and any(g != cur0 for g in got):
+        if not starts and not starts_of and got and any(g != cur0 for g in got):
             R.violation("the pattern matches nowhere but the cursor moved", c)
             continue
         if c["via"] == "c":
